@@ -160,6 +160,9 @@ def compare(ctx, tf, prog, segs):
                     prove(z3.And(*conj), 'string-data', channel=path)
                 continue
             if len(vals) == 0:
+                # a channel only ever written with empty arrays of a NumPy numeric dtype still has that dtype
+                if tag in wr.NP_TAGS and str(np.asarray(arr).dtype.newbyteorder('=')) != tag:
+                    fail('empty-channel-dtype', channel=path, got=str(np.asarray(arr).dtype), expected=tag)
                 continue
             want_dtype = 'datetime64[us]' if tag == 'datetime64' else tag
             if str(np.asarray(arr).dtype.newbyteorder('=')).replace('<', '').replace('M8', 'datetime64') != want_dtype:
